@@ -162,6 +162,18 @@ fn run_entry_chain<K: KeyT, V: ValT>(m: &mut M<K, V>, k: u64, kid: u64, ch: &[&s
                 "vac".into()
             }
         },
+        // `OccupiedEntry::into_mut`: the same write through the reference that outlives the entry
+        ("occ_into_mut", 2) => match m.entry(key) {
+            Entry::Occupied(oe) => {
+                let v: &mut V = oe.into_mut();
+                v.set_v(n(1));
+                format!("occ {}", fmt_v::<K, V>(v))
+            }
+            Entry::Vacant(ve) => {
+                drop(ve);
+                "vac".into()
+            }
+        },
         ("replace_entry_with", 3) => {
             let (keep, nv) = (ch[1] == "keep", n(2));
             match m.entry(key) {
@@ -505,6 +517,30 @@ fn run_raw_chain<K: KeyT, V: ValT>(m: &mut M<K, V>, mode: &str, k: u64, ch: &[&s
             let nv = n(1);
             match raw_look(m, mode, k).and_modify(|_k, v| v.set_v(nv)) {
                 RawEntryMut::Occupied(oe) => format!("occ {}", fmt_kv(oe.key(), oe.get())),
+                RawEntryMut::Vacant(_) => "vac".into(),
+            }
+        }
+        // the same update through `RawOccupiedEntryMut::into_key_value` / `key_mut` + `get_mut` + `into_mut`
+        ("into_key_value", 2) => {
+            let nv = n(1);
+            match raw_look(m, mode, k) {
+                RawEntryMut::Occupied(oe) => {
+                    let (kk, v) = oe.into_key_value();
+                    v.set_v(nv);
+                    format!("occ {}", fmt_kv(&*kk, &*v))
+                }
+                RawEntryMut::Vacant(_) => "vac".into(),
+            }
+        }
+        ("key_mut_get_mut", 2) => {
+            let nv = n(1);
+            match raw_look(m, mode, k) {
+                RawEntryMut::Occupied(mut oe) => {
+                    let ks = fmt_k(&*oe.key_mut());
+                    oe.get_mut().set_v(nv);
+                    let v: &mut V = oe.into_mut();
+                    format!("occ {}.{}", ks, fmt_v::<K, V>(&*v))
+                }
                 RawEntryMut::Vacant(_) => "vac".into(),
             }
         }
@@ -861,7 +897,7 @@ fn ref_echain(r: &mut RefMap, k: u64, kid: u64, ch: &[&str], by_ref: bool) -> Op
             r.insert(k, (old.0, n(1), n(2)));
             format!("occ {}", fv(&old))
         }
-        ("occ_get_mut", Some(old)) => {
+        ("occ_get_mut", Some(old)) | ("occ_into_mut", Some(old)) => {
             let e = (old.0, old.1, n(1));
             r.insert(k, e);
             format!("occ {}", fv(&e))
@@ -920,7 +956,7 @@ fn ref_raw_chain(r: &mut RefMap, k: u64, ch: &[&str]) -> Option<String> {
             r.insert(k, (n(1), old.1, old.2));
             format!("occ {}.{}", k, old.0)
         }
-        ("and_modify", Some(old)) => {
+        ("and_modify", Some(old)) | ("into_key_value", Some(old)) | ("key_mut_get_mut", Some(old)) => {
             let e = (old.0, old.1, n(1));
             r.insert(k, e);
             format!("occ {}", fe(&e))
